@@ -221,6 +221,54 @@ def _binding_names(target: Id | TupleBinding) -> list[NamedId]:
             return []
 
 
+class _CompTargets(DefaultVisitor):
+    """Collects every name a comprehension inside an expression binds."""
+
+    def __init__(self):
+        self.names: set[NamedId] = set()
+
+    def _visit_list_comp(self, e: ListComp, ctx: Any):
+        for target in e.targets:
+            self.names.update(_binding_names(target))
+        super()._visit_list_comp(e, ctx)
+
+
+def stage_scopes(e: ListComp) -> list[set[NamedId]]:
+    """For each stage of *e*, the names re-bound inside that stage's scope: by
+    a later stage, or by a comprehension nested in the element or in a later
+    iterable.  An accessor substituted for the stage's targets must not
+    mention one of them, or the inner binding would capture it."""
+    scan = _CompTargets()
+    scan._visit_expr(e.elt, None)
+    scopes: list[set[NamedId]] = []
+    for k in reversed(range(len(e.targets))):
+        scopes.append(set(scan.names))
+        scan.names.update(_binding_names(e.targets[k]))
+        scan._visit_expr(e.iterables[k], None)
+    scopes.reverse()
+    return scopes
+
+
+def path_names(e: Expr) -> set[NamedId]:
+    """The variables an :func:`is_access_path` reads."""
+    match e:
+        case Var():
+            return {e.name}
+        case Fst() | Snd():
+            return path_names(e.arg)
+        case ListRef():
+            return path_names(e.value) | path_names(e.index)
+        case _:
+            return set()
+
+
+def unshadow(subst: dict[NamedId, Expr], target: Id | TupleBinding) -> None:
+    """A stage that binds a name ends any substitution an earlier stage
+    recorded for it."""
+    for name in _binding_names(target):
+        subst.pop(name, None)
+
+
 class SubstNames(DefaultTransformVisitor):
     """Replace every :class:`Var` reference to a name in *subst* with the
     corresponding expression.  Scope-aware: a comprehension target that shadows
